@@ -26,6 +26,7 @@ pub fn def() -> CheckDef {
         assumptions: &["termination is judged by a seam-step budget per API call (1e6 + 200 per 64 bytes of image) and by the supervisor's CPU watchdog for loops that do no I/O", "uniformly random byte strings (which die at the signature check) are not the target; the 11 fuzz regressions shipped in /repo/tests are included as base images of the first cases"],
         cpu_limit_s: 120,
         fault_kinds: "F-FC field corruption (enumerated), F-BF bit flips, F-TR truncate/extend, F-LW lost write, F-MW misdirected write, F-CR/F-WT mid-operation crash images",
+        count_subruns: true,
     }
 }
 
